@@ -23,7 +23,7 @@ pub fn run(ctx: &Ctx, rec: &mut Recorder) -> Result<(), String> {
     }
     eprintln!("c29 enumerated {} sequences in {:?}", st.sequences, t_phase.elapsed());
     // ---- sequential, random and long: up to 8 keys, capacity up to 6
-    let nrand = ctx.qt(40_000u64, 2_000_000u64) / ctx.nshards as u64;
+    let nrand = ctx.qt(40_000u64, 400_000u64) / ctx.nshards as u64;
     let mut lr = Lcg(ctx.seed ^ 0xABCDEF ^ ((ctx.shard as u64) << 40) | 1);
     for _ in 0..nrand {
         let nkeys = 2 + lr.below(7) as usize;
@@ -64,7 +64,7 @@ pub fn run(ctx: &Ctx, rec: &mut Recorder) -> Result<(), String> {
 
     eprintln!("c29 sequential total {:?}", t_phase.elapsed());
     // ---- concurrent histories
-    let nhist = ctx.qt(30_000u64, 4_000_000u64) / ctx.nshards as u64;
+    let nhist = ctx.qt(30_000u64, 400_000u64) / ctx.nshards as u64;
     let mut lcg = Lcg(ctx.seed.wrapping_mul(0x9E3779B97F4A7C15) ^ (ctx.shard as u64) << 32 | 1);
     let mut overlapped = 0u64;
     let mut max_nodes = 0u64;
